@@ -318,8 +318,10 @@ pub fn antiamp(trace: &[Value]) -> Vec<Value> {
             }
             "Rx" if e["kind"] != "conn" && e["kind"] != "noroute" && e["kind"] != "stale" => {
                 // a datagram that was not routed to an existing connection
+                // judged from the invariant header bytes alone: long header, type Initial, version 1
                 let short_init = e["size"].as_i64().unwrap_or(0) < 1200
-                    && e["pk"][0]["ty"] == "I"
+                    && (e["pk"][0]["ty"] == "I"
+                        || (e["long"] == true && e["first"].as_i64().unwrap_or(0) & 0x30 == 0 && e["ver"] == 1))
                     && e["n"] == 0;
                 let same = e["ep_pre"] == e["ep_post"];
                 out.push(json!({"ev":"RxEp","t":e["t"],"n":e["n"],"size":e["size"],"kind":e["kind"],
